@@ -77,13 +77,16 @@ pub fn request_lines(base: u64) -> Vec<CM> {
         // subscription on the same parent, unsubscribed independently of the first
         CM::SubscribeLs(SubscribeLs { transaction_id: 921 + base, parent: Some(s("a")) }),
         CM::UnsubscribeLs(UnsubscribeLs { transaction_id: 921 + base }),
+        // an illegal pattern in the live-only variant (no snapshot lookup that would notice it)
+        CM::PSubscribe(PSubscribe { transaction_id: 915 + base, request_pattern: s("a/#/b"), unique: false, aggregate_events: None, live_only: Some(true) }),
+        CM::Subscribe(Subscribe { transaction_id: 916 + base, key: s("a/?"), unique: false, live_only: Some(true) }),
     ]
 }
 
 /// a reduced alphabet for the deeper exploration
 pub fn core_request_lines(base: u64) -> Vec<CM> {
     let all = request_lines(base);
-    let keep = [0usize, 2, 3, 6, 7, 9, 10, 13, 15, 17, 18, 21, 25, 29, 31, 32, 34, 36, 38, 39, 40, 43, 44, 46, 48, 49, 51, 52, 55, 56];
+    let keep = [0usize, 2, 3, 6, 7, 9, 10, 13, 15, 17, 18, 21, 25, 29, 31, 32, 34, 36, 38, 39, 40, 43, 44, 46, 48, 49, 51, 52, 55, 56, 57, 58];
     keep.iter().filter_map(|i| all.get(*i).cloned()).collect()
 }
 
